@@ -46,7 +46,6 @@ class SymBool:
     """A z3 Bool term."""
 
     __slots__ = ("t",)
-    __array_priority__ = 1000
 
     def __init__(self, t):
         self.t = t
@@ -147,7 +146,6 @@ class SymReal:
     """An exact real: either a concrete Fraction `c`, or z3 terms n/d (d None = 1)."""
 
     __slots__ = ("c", "n", "d")
-    __array_priority__ = 1000
 
     def __new__(cls, x=0, d=None):
         if isinstance(x, SymReal) and d is None:
